@@ -7,7 +7,7 @@ From NDN Require Import Base.Prelude Base.Text Model.TlvVar Model.Name Model.Tlv
   Proofs.BytesLemmas Proofs.TlvVarProofs Proofs.NameWire Proofs.TlvSplit Proofs.TlvAssign Proofs.TlvRoundtrip
   Proofs.TlvRoundtrip2 Proofs.TlvMore Proofs.PacketRoundtrip Proofs.SignedPortionProofs.
 Local Open Scope N_scope.
-Set Default Timeout 60.
+Set Default Timeout 900.
 
 Arguments N.of_nat : simpl never.
 Arguments N.to_nat : simpl never.
